@@ -687,6 +687,7 @@ func c09(c *Ctx) {
 	c09DatagramEndReported(c)
 	c09HelperWaitsOnExit(c)
 	c09ResultChannelNotAbandoned(c, "services")
+	loopLeavesOnReadError(c, "drain-loop-leaves-on-error", "the handler, its goroutine and the connection's descriptor stay for good", "services")
 }
 
 // exitChannelsOf: channels whose closed/receive arm guards the return r (range over chan exhausted, v,ok := <-ch with !ok,
